@@ -3,4 +3,4 @@ From Coq Require Import Extraction ExtrOcamlBasic ExtrOcamlString.
 From Cb Require Import C13.Model.
 Extraction Language OCaml.
 Extraction "C13/c13_model.ml" m_run_a s_run_a safe_a m_run_q s_run_q safe_q m_run_t s_run_t safe_t
-  classify build_err encode decode mech_match.
+  classify build_err encode decode mech_match m_run_m s_run_m safe_m builtin_of_name.
